@@ -36,14 +36,24 @@ def run(ctx):
     ctx.rule("B1", "condition kinds: builder <-> reader tuple, args_as_tuple, negation folding")
     # kinds the builder instantiates (constant names in __create_filter / __build_condition)
     built = set()
-    for f in (R.create, R.build_condition):
-        if f is None:
-            continue
+    neg_dispatch = set()
+    for f in R.builders():
         for c in walk_no_nested(f.node):
             if isinstance(c, ast.Call) and call_name(c) == "get_command_instance" and c.args:
                 v = const_value(prog, f, c.args[0])
                 if isinstance(v, str):
                     built.add(v)
+        # kinds named only as keys of a dispatch table {"size": self.__build_size, ...}
+        for d in walk_no_nested(f.node):
+            if isinstance(d, ast.Dict):
+                for k_, v_ in zip(d.keys, d.values):
+                    kv = const_value(prog, f, k_) if k_ is not None else None
+                    if isinstance(kv, str) and isinstance(v_, ast.Attribute) and v_.attr in R.m:
+                        built.add(kv)
+                        g = R.m[v_.attr]
+                        if any(isinstance(a, ast.Assign) and "negat" in norm(a.targets[0]) and const_value(prog, g, a.value) is True
+                               for a in walk_no_nested(g.node)):
+                            neg_dispatch.add(kv)
     reader_classes = set()
     for c in walk_no_nested(gc.node):
         if isinstance(c, ast.Call) and call_name(c) == "isinstance" and len(c.args) == 2 and isinstance(c.args[1], ast.Tuple):
@@ -78,8 +88,9 @@ def run(ctx):
             if isinstance(kind, str) and any(isinstance(a, ast.Assign) and norm(a.targets[0]) == "negate" for b_ in st.body for a in ast.walk(b_)):
                 neg_tag.add(kind)
     # header fallback negates through the else branch
-    if any("build_condition" in norm(c) for c in walk_no_nested(src.node) if isinstance(c, ast.Call)):
+    if any("build_condition" in norm(c) for b_ in R.builders() for c in walk_no_nested(b_.node) if isinstance(c, ast.Call)):
         neg_tag.add("header")
+    neg_tag |= neg_dispatch
     folded = set()
     for c in walk_no_nested(gc.node):
         if isinstance(c, ast.Compare) and "node.name" in norm(c.left):
